@@ -1139,3 +1139,41 @@ theorem results_far_conserve (c : Cfg) (hS : 0 < c.slide) (es : List (Elem α)) 
   simpa [held, State.init] using h
 
 end Noir.EventTimeWindow
+
+namespace Noir.EventTimeWindow
+
+variable {α : Type}
+
+/-- executable form of `Guarded` (used for the non-vacuity examples) -/
+def guardedB (c : Cfg) : State α → List (Elem α) → Bool
+  | _, [] => true
+  | st, e :: es =>
+    (match e with
+     | .ts _ t => (match st.lw with | some w => decide (w < t) | none => true) &&
+                  (match st.ws.head? with | some f => decide (f.start ≤ t) | none => true)
+     | .wm w => (match st.lw with | some w0 => decide (w0 ≤ w) | none => true)
+     | _ => true) && guardedB c (process c st e).1 es
+
+theorem guarded_of_guardedB (c : Cfg) : ∀ (es : List (Elem α)) (st : State α),
+    guardedB c st es = true → Guarded c st es := by
+  intro es
+  induction es with
+  | nil => intros; trivial
+  | cons e es ih =>
+    intro st h
+    simp only [guardedB, Bool.and_eq_true] at h
+    refine ⟨?_, ih _ h.2⟩
+    have h1 := h.1
+    cases e with
+    | ts x t =>
+      simp only [Bool.and_eq_true] at h1
+      refine ⟨?_, ?_⟩
+      · intro w hw; rw [hw] at h1; simpa using h1.1
+      · intro f hf; rw [hf] at h1; simpa using h1.2
+    | wm w => intro w0 hw; simp only [hw] at h1; simpa using h1
+    | far => trivial
+    | term => trivial
+    | item _ => trivial
+    | flushBatch => trivial
+
+end Noir.EventTimeWindow
